@@ -1,1 +1,291 @@
-/-! # C20 — property theorems (stub: not built yet) -/
+import KM.Lemmas.Events
+/-! # C20 — every certificate issued is reported to the audit stream; history persists
+
+Property theorems only.  Model: `KM/Model/Events.lean` (notifier fan-out with one bounded
+channel per subscriber; recorder lists, save / load / expire).  Generated facts:
+`KM/Gen/Events.lean` (channel capacity, retention, every send / locked region of the notifier,
+every certificate signing site of cmd/keymasterd). -/
+namespace KM.Events
+open KM.EventSite
+variable {α : Type}
+
+/-! ## notifier -/
+
+/-- **Non-blocking fan-out.**  A publish is a function of the state (`publish : St → α → St`, no
+waiting outcome exists: each loop iteration is a `select` with `default`).  Its effect on a
+subscriber's channel depends on that channel alone: enqueue when there is room, drop otherwise —
+whatever the state of any other subscriber; the registered set and what subscribers already took
+are untouched. -/
+theorem c20_nonblocking (N : Nat) (s : St α) (ev : α) (h : s.keys.Nodup) :
+    (publish N s ev).keys = s.keys ∧ (publish N s ev).got = s.got ∧
+    ∀ k, (publish N s ev).q k = if k ∈ s.keys then trySend N (s.q k) ev else s.q k :=
+  ⟨publishOver_keys N s.keys s ev, publishOver_got N s.keys s ev, publishOver_q N s.keys s ev h⟩
+
+/-- Go iterates the channel map in an arbitrary order: every order gives the same result. -/
+theorem c20_nonblocking_any_order (N : Nat) (s : St α) (ev : α) (order : List Nat)
+    (h : s.keys.Nodup) (hp : order.Perm s.keys) (k : Nat) :
+    (publishOver N order s ev).q k = (publish N s ev).q k := by
+  rw [publishOver_q N order s ev (hp.nodup_iff.mpr h) k, (c20_nonblocking N s ev h).2.2 k]
+  simp [hp.mem_iff]
+
+/-- a subscriber whose channel is full (a slow or stalled reader) costs the others nothing:
+`k` with room receives the event, the full `j` keeps its content -/
+theorem c20_full_subscriber_harmless (N : Nat) (s : St α) (ev : α) (j k : Nat) (h : s.keys.Nodup)
+    (hj : j ∈ s.keys) (hk : k ∈ s.keys) (hfull : N ≤ (s.q j).length) (hroom : (s.q k).length < N) :
+    (publish N s ev).q k = s.q k ++ [ev] ∧ (publish N s ev).q j = s.q j := by
+  have := (c20_nonblocking N s ev h).2.2
+  constructor
+  · rw [this k]; simp [hk, trySend, hroom]
+  · rw [this j]
+    have : ¬ (s.q j).length < N := by omega
+    simp [hj, trySend, this]
+
+/-- what makes the model's "no waiting outcome" true of the source (regenerated tables): every
+channel send reachable from a `Publish*` method is a `select` with a `default` arm, nothing that
+can wait runs while the notifier mutex is held, and subscriber channels are buffered. -/
+theorem c20_nonblocking_sites :
+    KM.Gen.notifierSends.all (fun r => !r.2.2 || r.2.1 == SendClass.selectDefault) = true ∧
+    (KM.Gen.notifierSends.filter (fun r => r.2.2 && r.2.1 == SendClass.selectDefault)).length ≥ 2 ∧
+    KM.Gen.notifierSends.all (fun r => r.2.1 != SendClass.blocking && r.2.1 != SendClass.unknown) = true ∧
+    KM.Gen.notifierLockedRegions.all (fun r => r.2 == LockClass.nonBlocking) = true ∧
+    KM.Gen.notifierLockedRegions.length ≥ 3 ∧
+    0 < chanCap := by
+  decide
+
+/-- a channel never holds more than its capacity -/
+theorem c20_bounded (N k : Nat) (ops : List (Op α)) (s : St α) (hn : s.keys.Nodup)
+    (hb : (s.q k).length ≤ N) : ((run N s ops).q k).length ≤ N :=
+  run_q_le N k ops s hn hb
+
+/-- **Events are lost only to a full channel.**  For every op sequence (publishes, reads by any
+subscriber, other subscribers coming and going) during which `k` stays connected: what `k` has
+been handed (taken by its connection goroutine, then still buffered) is what it had, followed by
+a subsequence `D` of the published events in publication order, and the number of published
+events missing from `D` is exactly the number of publishes that found `k`'s channel full. -/
+theorem c20_drop_only_when_full (N k : Nat) (ops : List (Op α)) (s : St α) (hn : s.keys.Nodup)
+    (hk : k ∈ s.keys) (hs : stays k ops = true) :
+    ∃ D, D.Sublist (pubs ops) ∧
+      (run N s ops).got k ++ (run N s ops).q k = s.got k ++ s.q k ++ D ∧
+      D.length + fullCount N k s ops = (pubs ops).length :=
+  account N k ops s hn hk hs
+
+/-- **Delivery.**  A subscriber whose channel is never full at a publish receives exactly the
+published sequence, in order — for every op sequence. -/
+theorem c20_delivery (N k : Nat) (ops : List (Op α)) (s : St α) (hn : s.keys.Nodup)
+    (hk : k ∈ s.keys) (hs : stays k ops = true) (hf : fullCount N k s ops = 0) :
+    (run N s ops).got k ++ (run N s ops).q k = s.got k ++ s.q k ++ pubs ops := by
+  obtain ⟨D, hD, hv, hl⟩ := c20_drop_only_when_full N k ops s hn hk hs
+  rw [hf, Nat.add_zero] at hl
+  rw [hv, hD.eq_of_length hl]
+
+/-- … in particular a subscriber that is drained between publishes (its goroutine takes the event
+out before the next publish), with any channel capacity ≥ 1 -/
+theorem c20_delivery_drained (N k : Nat) (ops : List (Op α)) (s : St α) (hn : s.keys.Nodup)
+    (hk : k ∈ s.keys) (hs : stays k ops = true) (hN : 1 ≤ N) (he : s.q k = [])
+    (hd : drainedBetween k false ops = true) :
+    (run N s ops).got k ++ (run N s ops).q k = s.got k ++ pubs ops := by
+  have := c20_delivery N k ops s hn hk hs
+    (fullCount_drained N k ops s false hn hk hs hN hd (by simp [he]))
+  simpa [he] using this
+
+/-- … and a subscriber with at most `N` events outstanding, however slowly it reads -/
+theorem c20_delivery_outstanding (N k : Nat) (ops : List (Op α)) (s : St α) (hn : s.keys.Nodup)
+    (hk : k ∈ s.keys) (hs : stays k ops = true) (hb : (s.q k).length + (pubs ops).length ≤ N) :
+    (run N s ops).got k ++ (run N s ops).q k = s.got k ++ s.q k ++ pubs ops :=
+  c20_delivery N k ops s hn hk hs (fullCount_bounded N k ops s hn hk hs hb)
+
+/-- the registered set stays duplicate free along every run from the empty notifier, so the
+hypothesis `Nodup` above holds in every reachable state -/
+theorem c20_reachable_nodup (N : Nat) (ops : List (Op α)) : (run N St.empty ops).keys.Nodup := by
+  suffices h : ∀ s : St α, s.keys.Nodup → (run N s ops).keys.Nodup from h _ List.nodup_nil
+  induction ops with
+  | nil => intro s h; exact h
+  | cons op r ih => intro s h; exact ih _ (step_nodup N s op h)
+
+/-- non-vacuity: 3 publishes to a subscriber that reads once in between, capacity 16 -/
+example : (run 16 (St.empty (α := Nat)) [.sub 7, .pub 1, .pub 2, .recv 7, .pub 3]).got 7 = [1] ∧
+    (run 16 (St.empty (α := Nat)) [.sub 7, .pub 1, .pub 2, .recv 7, .pub 3]).q 7 = [2, 3] := by decide
+
+/-- non-vacuity of the loss clause: capacity 2, third publish is dropped -/
+example : (run 2 (St.empty (α := Nat)) [.sub 0, .pub 1, .pub 2, .pub 3]).q 0 = [1, 2] ∧
+    fullCount 2 0 (run 2 (St.empty (α := Nat)) [.sub 0]) [.pub 1, .pub 2, .pub 3] = 1 := by decide
+
+/-! ## issuing sites (regenerated table) -/
+
+/-- a signing site is acceptable when the same variable is published with the matching event
+type before the response / return, or when it signs the daemon's own CA certificate, or when it
+is only reachable from the configuration generator -/
+def siteOK : IssueClass → Bool
+  | .published a b => a == b
+  | .selfSignedCA | .configGeneration => true
+  | .missing _ | .unknown => false
+
+/-- **Sites**: every certificate signing call in cmd/keymasterd (direct `x509.CreateCertificate`,
+or through a signing function of lib/certgen) is followed in the same function by
+`eventNotifier.Publish*` of the variable it bound, with the matching type, before anything touches
+the ResponseWriter or the function returns. -/
+theorem c20_sites :
+    KM.Gen.issueSites.all (fun s => siteOK s.2.2) = true ∧
+    (KM.Gen.issueSites.filter (fun s => s.2.2 == IssueClass.published .ssh .ssh)).length ≥ 1 ∧
+    (KM.Gen.issueSites.filter (fun s => s.2.2 == IssueClass.published .x509 .x509)).length ≥ 3 := by
+  decide
+
+/-- the table as extracted from the pinned tree: `generateRoleCert` (AWS role certificates)
+returned the DER without publishing it -/
+def issueSitesAsFound : List IssueClass :=
+  [.selfSignedCA, .selfSignedCA, .missing .x509, .published .ssh .ssh, .published .x509 .x509,
+   .configGeneration, .published .x509 .x509]
+
+theorem c20_sites_unfixed_counterexample : issueSitesAsFound.all siteOK = false := by decide
+
+/-! ## recorder -/
+
+/-- **Save / restart / load.**  For every recorder state, every user and every restart time: the
+history read back after `saveEvents` + `loadEvents` is the saved history with exactly the entries
+older than the retention removed — same events, same order (newest first) — and the rebuilt
+list is consistent in both pointer directions. -/
+theorem c20_saveload (m : Rec) (now : Int) (u : String) :
+    ((load now (save m)) u).map DL.snapshot = (m u).map (fun l => l.snapshot.filter (keep now)) ∧
+    ∀ l, (load now (save m)) u = some l → l.wf := by
+  unfold load save
+  cases hm : m u with
+  | none => simp
+  | some l0 =>
+    have := loadList_aux now l0.snapshot DL.empty
+    simp only [Option.map_some, Option.some.injEq, DL.snapshot, loadList] at this ⊢
+    refine ⟨by rw [this.1]; simp [DL.empty], ?_⟩
+    intro l hl
+    subst hl
+    simp only [DL.wf]
+    rw [this.1, this.2]
+    simp [DL.empty]
+
+/-- `keep` is "age ≤ retention" (for clocks past the first month of 1970, where the uint64
+conversion in the source does not wrap) -/
+theorem c20_keep_is_age (now : Int) (e : Event) (h : (retention : Int) ≤ now)
+    (h64 : now < 9223372036854775808) :
+    keep now e = decide (now - (e.createTime : Int) ≤ (retention : Int)) := by
+  have h1 : minCreate now = (now - (retention : Int)).toNat := by
+    unfold minCreate
+    rw [Int.emod_eq_of_lt (by omega) (by unfold retention KM.Gen.recorderLoadRetentionSeconds at *; omega)]
+  unfold keep
+  rw [h1]
+  apply decide_eq_decide.mpr
+  omega
+
+/-- nothing else is lost and nothing is reordered: the reloaded history is a sublist of the saved one -/
+theorem c20_saveload_order (m : Rec) (now : Int) (u : String) (l0 l1 : DL)
+    (h0 : m u = some l0) (h1 : (load now (save m)) u = some l1) :
+    l1.snapshot.Sublist l0.snapshot ∧ ∀ e ∈ l0.snapshot, keep now e = true → e ∈ l1.snapshot := by
+  have := (c20_saveload m now u).1
+  rw [h0, h1] at this
+  simp only [Option.map_some, Option.some.injEq] at this
+  rw [this]
+  exact ⟨List.filter_sublist, fun e he hk => List.mem_filter.mpr ⟨he, hk⟩⟩
+
+/-- **Expire.**  The hourly expiry removes a block at the old end consisting only of entries past
+the retention, leaves the rest in order, stops at the first entry young enough, and keeps both
+pointer chains consistent. -/
+theorem c20_expire (now : Int) (l : DL) (h : l.wf) :
+    (expireList now l).wf ∧
+    ∃ d, l.snapshot = (expireList now l).snapshot ++ d ∧ (∀ e ∈ d, keep now e = false) ∧
+      (∀ e, (expireList now l).snapshot.getLast? = some e → keep now e = true) := by
+  obtain ⟨d, h1, h2, h3⟩ := expireFo_spec now l.fo
+  have hfn : l.fn = (expireFo now l.fo).reverse ++ d.reverse := by
+    have : l.fn = l.fo.reverse := by rw [h]; simp
+    rw [this, congrArg List.reverse h1]; simp
+  have hlen : l.fn.length - (l.fo.length - (expireFo now l.fo).length) = (expireFo now l.fo).reverse.length := by
+    have e1 : l.fo.length = d.length + (expireFo now l.fo).length := by
+      rw [congrArg List.length h1]; simp
+    rw [hfn]; simp; omega
+  have htake : (expireList now l).fn = (expireFo now l.fo).reverse := by
+    simp only [expireList]
+    rw [hlen, hfn, List.take_left]
+  have hwf : (expireList now l).wf := by
+    show (expireList now l).fo = (expireList now l).fn.reverse
+    rw [htake]; simp [expireList]
+  refine ⟨hwf, d.reverse, ?_, ?_, ?_⟩
+  · simp only [DL.snapshot, htake]; exact hfn
+  · intro e he; exact h2 e (List.mem_reverse.mp he)
+  · intro e he
+    simp only [DL.snapshot, htake, List.getLast?_reverse] at he
+    exact h3 e he
+
+/-- when creation times do not increase towards the old end (what `recordEvent` builds under a
+clock that does not step backwards) expiry is exactly the retention filter, i.e. it agrees
+with what a restart would keep -/
+theorem c20_expire_sorted (now : Int) (l : DL) (h : l.wf)
+    (hs : l.snapshot.Pairwise (fun a b => b.createTime ≤ a.createTime)) :
+    (expireList now l).snapshot = l.snapshot.filter (keep now) := by
+  obtain ⟨hw, _⟩ := c20_expire now l h
+  have hfo : l.fo.Pairwise (fun a b => a.createTime ≤ b.createTime) := by
+    rw [h]; exact List.pairwise_reverse.mpr hs
+  have h1 := expireFo_sorted now l.fo hfo
+  have : (expireList now l).fn = (expireList now l).fo.reverse := by rw [hw]; simp
+  simp only [DL.snapshot]
+  rw [this]
+  simp only [expireList]
+  rw [h1, h, List.filter_reverse]; simp
+
+/-- every list of every recorder state reachable from an empty recorder by recording, restarting
+and expiring is consistent, so `c20_expire` applies to all of them -/
+theorem c20_reachable_wf (ops : List RecOp) :
+    ∀ (u : String) (l : DL), (recRun Rec.empty ops) u = some l → l.wf := by
+  suffices hg : ∀ m : Rec, (∀ u l, m u = some l → l.wf) → ∀ u l, (recRun m ops) u = some l → l.wf from
+    hg Rec.empty (by intro u l h; cases h)
+  induction ops with
+  | nil => intro m hm; exact hm
+  | cons op r ih =>
+    intro m hm
+    apply ih
+    intro u l hl
+    cases op with
+    | record v e =>
+      simp only [recStep, record, Rec.upd] at hl
+      split at hl
+      · injection hl with hl
+        subst hl
+        apply wf_push
+        cases hv : m v with
+        | none => exact wf_empty
+        | some l' => exact hm v l' hv
+      · exact hm u l hl
+    | restart now => exact (c20_saveload m now u).2 l hl
+    | expire now =>
+      simp only [recStep, expire] at hl
+      cases hu : m u with
+      | none => rw [hu] at hl; cases hl
+      | some l' =>
+        rw [hu] at hl
+        simp only [Option.map_some, Option.some.injEq] at hl
+        subst hl
+        exact (c20_expire now l' (hm u l' hu)).1
+
+/-- recording puts the new event at the newest end and keeps everything else -/
+theorem c20_record (m : Rec) (u : String) (e : Event) :
+    ((record m u e) u).map DL.snapshot = some (e :: ((m u).map DL.snapshot).getD []) ∧
+    ∀ v, v ≠ u → (record m u e) v = m v := by
+  constructor
+  · cases h : m u <;> simp [record, Rec.upd, h, DL.push, DL.snapshot, DL.empty]
+  · intro v hv; simp [record, Rec.upd, hv]
+
+private def ev (t : Nat) (url : String) (web : Bool) : Event :=
+  { authType := 0, createTime := t, lifetimeSeconds := 0, serviceProviderUrl := url.toList,
+    ssh := false, webLogin := web, x509 := false, vipAuthType := 0 }
+
+/-- `loadEvents` as found on the pinned tree: a web login followed by two service-provider logins
+(saved newest first: sp2, sp1, web) comes back as web, sp1, sp2 — the history is reversed. -/
+theorem c20_loadevents_unfixed_counterexample :
+    (loadListOld 1790000000 [ev 1789999903 "https://sp2" false, ev 1789999902 "https://sp1" false,
+        ev 1789999901 "" true]).snapshot =
+      [ev 1789999901 "" true, ev 1789999902 "https://sp1" false, ev 1789999903 "https://sp2" false] ∧
+    (loadList 1790000000 [ev 1789999903 "https://sp2" false, ev 1789999902 "https://sp1" false,
+        ev 1789999901 "" true]).snapshot =
+      [ev 1789999903 "https://sp2" false, ev 1789999902 "https://sp1" false, ev 1789999901 "" true] := by
+  decide
+
+/-- non-vacuity: an entry older than 31 days is dropped by a restart, younger ones survive in order -/
+example : (loadList 1790000000 [ev 1789999903 "" true, ev 1787321599 "" true, ev 1787321600 "" true]).snapshot =
+    [ev 1789999903 "" true, ev 1787321600 "" true] := by decide
+
+end KM.Events
